@@ -466,8 +466,8 @@ def check_case(ctx, case, origin):
         if o['exc'] is not None:
             ctx.violation('P:exception', brief, '%s: %s' % (iface, o['exc']))
             continue
-        if o['errors']:
-            ctx.violation('P:protocol', brief, '%s: server-side protocol monitor: %s' % (iface, o['errors'][:3]))
+        if o['errors']:     # protocol legality is C05's subject; noted here, not alarmed
+            ctx.detail('D:protocol', brief, '%s: server-side protocol monitor: %s' % (iface, o['errors'][:3]))
         dg = o['digest']
         if dg is None:
             ctx.violation('P:reached', brief, '%s: the responder was not reached (status %s)' % (iface, o['proj'] and o['proj']['status']))
@@ -686,7 +686,7 @@ def event_of(iface, o):
         # invalid framing (the Content-Length accessor raised): what reading the body yields is not compared
         framing_ok = not (isinstance(dg['content_length'], dict) and 'http_error' in dg['content_length'])
         ev['dg'] = sha(dg if framing_ok else {k: v for k, v in dg.items() if k not in ('body', 'media')})
-        ev['rs'] = sha([o['proj'], o['errors']])
+        ev['rs'] = sha(o['proj'])
     return ev
 
 
@@ -723,10 +723,10 @@ def run(ctx):
     ctx.progress('leg M done')
 
     # ---- leg A: TLC-generated cases --------------------------------------------------------------
-    rs = ctx.tlc('MC_ServerIface', 'MC_ServerIfaceSim.cfg', simulate={'num': ctx.pick(700, 9000)}, depth=12,
+    rs = ctx.tlc('MC_ServerIface', 'MC_ServerIfaceSim.cfg', simulate={'num': ctx.pick(700, 6500)}, depth=12,
                  seed=ctx.seed + 1, workers=4, timeout=900, count=False)
     cases = {digest([c['req'], c['opts'], c['kind']]): c for c in rs.json}
-    cases = list(cases.values())[:ctx.pick(2600, 34000)]
+    cases = list(cases.values())[:ctx.pick(2600, 24000)]
     ctx.progress('leg A: %d distinct cases from TLC' % len(cases))
     n4 = 0
     for i, case in enumerate(cases):
@@ -740,7 +740,7 @@ def run(ctx):
     ctx.progress('leg A done: %d cases, %d driver runs' % (len(cases), n4))
 
     # ---- leg B: random richer requests, judged by TLC ------------------------------------------------
-    nrand = ctx.pick(1500, 22000)
+    nrand = ctx.pick(1500, 16000)
     rng = ctx.rng
     traces, briefs = [], []
     for i in range(nrand):
@@ -748,17 +748,10 @@ def run(ctx):
         opts = {'strip': rng.random() < 0.5, 'keep_blank': rng.random() < 0.5, 'csv': rng.random() < 0.5}
         kind = rng.choice(KINDS)
         cj = harness_client_args(rq)
+        # the drivers are run wherever the harness can form the call; TLC (Expressible) decides which events count
         can = {'raw-wsgi': True, 'raw-asgi': True, 'client-wsgi': cj is not None, 'client-asgi': cj is not None}
         if cj is not None and host_differs(cj):
             can['client-asgi'] = False           # finding F11, exercised and signed in leg A
-        # the drivers are run wherever the harness can form the call; TLC decides which events count
-        names = {L1(h['n']).lower() for h in rq['headers']}
-        ua = 'user-agent' in names
-        for h in rq['headers']:
-            if L1(h['n']).lower() == 'content-length' and not L1(h['v']).isdigit():
-                can['client-wsgi'] = can['client-asgi'] = False      # rejected by the helpers (outside Expressible)
-        if not ua or (rq['version'] != '1.0' and 'host' not in names):
-            can['client-wsgi'] = can['client-asgi'] = False          # the client would add fields of its own
         obs = observe_all(rq, cj, opts, kind, can)
         evs = [event_of(iface, obs[iface]) for iface in IFACES if iface in obs]
         trace = {'req': rq, 'opts': opts, 'kind': kind, 'ev': evs}
@@ -768,17 +761,17 @@ def run(ctx):
         brief = {'origin': 'random', 'req': rq, 'opts': opts, 'kind': kind, 'drivers': [e['iface'] for e in evs]}
         ctx.case(brief, nontrivial=nontrivial, key=digest([rq, opts, kind]))
         traces.append(trace)
-        briefs.append((brief, obs))
+        briefs.append((brief, {i: o['exc'] for i, o in obs.items()}))
     ctx.progress('leg B: %d traces recorded' % len(traces))
     verdicts = ctx.judge('ServerIfaceTrace', traces, workers=8, timeout=1500, chunk=3000)
-    for (brief, obs), tr, v in zip(briefs, traces, verdicts):
+    for (brief, excs), tr, v in zip(briefs, traces, verdicts):
         if v == 'ok':
             continue
         clause, _, at = v.partition('@')
         if clause.startswith('H:'):
             raise MachineryError('leg B generated a request outside WellFormed: %s' % canon(brief['req']))
         ev = tr['ev'][int(at) - 1] if at.isdigit() and 0 < int(at) <= len(tr['ev']) else None
-        exc = obs[ev['iface']]['exc'] if ev else None
+        exc = excs.get(ev['iface']) if ev else None
         ctx.violation(clause, {'case': brief, 'trace': tr},
                       'trace rejected by ServerIfaceTrace at event %s (%s)%s: %s'
                       % (at, ev and ev['iface'], ' exception: %s' % exc if exc else '', canon(ev)[:500]))
